@@ -28,6 +28,8 @@ CLAIMS["C17"] = ("strong: the interval decision table is evaluated exactly on th
     "interprocedural decision-table abstract evaluation (exact finite partition), dominating guards, value-flow shape of the wait expression")
 CLAIMS["C14"] = ("partial, strong: single copy-convert-send exit, length field == bytes sent, complete byte-level assembly of the error report (every byte of the message accounted for), encapsulated length class at all 20 report sites and total size bound, byte-order typestate of the echoed buffer on every path of the receive function, report forwarded for every length class, every protocol-violation FATAL preceded by a report, no reply to Error Reports, padding-free layouts, per-type conversion table against the RFC layout, and the RFC error code per violation class; partial-write behaviour of user transports is not decided",
     "value-flow of stores into the message buffer, typestate dataflow, decision cells per violation class, layout tables from DWARF vs RFC tables")
+CLAIMS["C04"] = ("partial: receive-buffer bound (header first, length bounds dominate the payload read, 3248-byte buffers), the complete size table of rtr_pdu_check_size against RFC 8210 (480+ type/version/length cells) and the wire layouts, ordering and width of the nested Error-Report length checks, buffer untouched after a failed receive, framing only through the read/write-until-complete loops and their reaction to every negative result, bounds of the variable-length stack arrays, the temporary PDU stores' capacity invariant, and a classification of all 33 assertions reachable from the receive path (16 discharged by call-site constants / guards / type tests, 17 listed as not decided because they need the trie-depth invariant over histories); termination with user transports and the trie-shape-dependent asserts are not decided",
+    "dominating-guard reasoning, decision-table evaluation of the size check, value-flow bounds of VLA sizes, call-site constant propagation for assert discharge")
 NA = {}
 def main():
     props = [json.loads(l) for l in open(os.path.join(HERE, "properties.jsonl"))]
